@@ -1,6 +1,6 @@
 #!/bin/bash
-# seedsweep.sh "<seeds>": quick tier of every claimed check for several VERIF_SEED values (false-alarm sweep; does not touch evidence: uses a private VERIF_REPO alias)
+# seedsweep.sh "<seeds>": quick tier of every claimed check for several VERIF_SEED values (false-alarm sweep; does not touch evidence: VERIF_NO_EVIDENCE=1)
 cd /verif
 for s in $1; do for P in $(/venv/bin/python -c "import json;print(' '.join(json.load(open('harness/claimed.json'))))" 2>/dev/null); do
-  VERIF_SEED=$s VERIF_REPO=/tmp/repo_alias /venv/bin/python harness/check.py $P --tier quick --no-build 2>&1 | grep -v condarc | grep -e VIOLATION -e "tier=" | cut -c1-170
+  VERIF_SEED=$s VERIF_NO_EVIDENCE=1 /venv/bin/python harness/check.py $P --tier quick --no-build 2>&1 | grep -v condarc | grep -e VIOLATION -e "tier=" | cut -c1-170
 done; done
